@@ -141,8 +141,9 @@ impl Transformation<String> {
     use Transformation as T;
     Ok(match self {
       T::Replace(r) => T::Replace(Replace {
+        // validate the regex when the rule is loaded: `compute` unwraps it for every match
+        replace: Regex::new(&r.replace).map(|_| r.replace.clone())?,
         source: parse_meta_var(&r.source, lang)?,
-        replace: r.replace.clone(),
         by: r.by.clone(),
       }),
       T::Substring(s) => T::Substring(Substring {
